@@ -128,8 +128,14 @@ def analyze_cell(cell: Cell, budget_s: float, path_timeout: float = 90.0) -> dic
     if "PRE_UNSAT" in kinds:
         # CrossHair says this both for an unsatisfiable precondition and when every path timed out.  The largest values of the
         # ranges are a concrete witness of satisfiability: with it, "no path completed" is a time-out (inconclusive), not a vacuous harness
+        import itertools
+
+        sat = False
         try:
-            sat = bool(cell.pre(*([cell.defaults[x] for x in cell.names] + [cell.spec.resolution])))
+            for combo in itertools.islice(itertools.product(*[(cell.ranges[x][1], cell.ranges[x][0]) for x in cell.names]), 256):
+                if cell.pre(*(list(combo) + [cell.spec.resolution])):
+                    sat = True
+                    break
         except Exception:  # noqa: BLE001
             sat = False
         if sat:
